@@ -13,7 +13,7 @@ ASSUME = c01.ASSUME + [
 
 def run(tier):
     rc = e1run.run_property(PID, tier, c01.jobs(tier, kinds=("errpos",), n_quick=4, n_thorough=6, stretch=False), native_len=3 if tier == "quick" else 4,
-                              timeout_s=600 if tier == "quick" else 3000, functions=c01.FUNCTIONS, assumptions=ASSUME, deep=True)
+                              timeout_s=600 if tier == "quick" else 3000, functions=c01.FUNCTIONS, assumptions=ASSUME, deep=True, ascent=True)
     from vlib import e3
     return e3.add_stage(PID, tier, rc, ["plain", "errors"], {"C04", "C01"})
 
